@@ -7,7 +7,7 @@ Property theorems only (helper lemmas live in `Mutagen.Proofs.Executability`).
 -/
 namespace Mutagen.Properties.C18
 open Mutagen.Model Mutagen.Proofs Mutagen.Proofs.Executability Mutagen.Proofs.ExecCycle
-  Mutagen.Proofs.ReconcileLeaf Mutagen.Proofs.Reconcile
+  Mutagen.Proofs.ReconcileLeaf Mutagen.Proofs.ReconcileShape
 
 /-- `propagate_rules`: for every ancestor `A`, source `S`, target `T` and every
 path `q`, the scalar fields `PropagateExecutability(A, S, T)` records at `q`
